@@ -1,5 +1,7 @@
 package s1
 
+import "verif/canon"
+
 // HistResult is what executing one history yields.
 type HistResult struct {
 	Key     string   `json:"key"`
@@ -41,7 +43,15 @@ func RunHistoryOpt(f *Family, hist []Ev, flags []string, wantTrace, allSteps boo
 	for _, ev := range hist {
 		r.Do(ev)
 	}
-	res.Key = r.M.Key()
+	// canonical state key: reference model state (values renamed by rank) plus
+	// a structural digest of the server's memory
+	roots := []any{r.W.Store}
+	for _, c := range r.Cl {
+		if c.RH != nil && r.M.Conns[c.Idx].Open {
+			roots = append(roots, c.RH)
+		}
+	}
+	res.Key = r.M.Key() + " #impl=" + canon.Digest(roots...)
 	res.Enabled = f.Enabled(r.M)
 	last := r.step
 	r.Probe()
